@@ -92,6 +92,8 @@ def rollbackJournal (s : Eng) : Except String Eng := do
         | .eof r => return (r, s)
         | .err m => throw m
         | .ok r =>
+          -- empty database file: the page size is known from the journal only
+          let s := if s.pageSize = 0 then { s with pageSize := r.pageSize } else s
           let rec frames (fuel2 : Nat) (r : JR) (s : Eng) : Except String (JR × Eng) :=
             match fuel2 with
             | 0 => .ok (r, s)
